@@ -107,10 +107,16 @@ func RunStepped(r *ev.Run, prop string, n int) {
 		rng := r.Rand(uint64(i), 0x5ced)
 		w := GenWorld(rng, p)
 		r.Case("stepped case %d profile %s: %d queues %d workers %d actions", i, p.Name, len(w.PQs), len(w.Workers), len(w.Actions))
-		c := NewCase(w, p, rng)
+		scenario := 0
 		if p.RetryHeavy {
-			c.Scenario = i % 5
+			scenario = i % 5
 		}
+		if p.LongAdvances && scenario == 0 && (i%10 == 5 || (!p.RetryHeavy && i%6 == 1)) {
+			scenario = 5
+			AddDynamicQueueScenario(w)
+		}
+		c := NewCase(w, p, rng)
+		c.Scenario = scenario
 		res := c.Run(nil)
 		reportCase(r, prop, i, res, foreign)
 		if res.Ambiguous != "" {
@@ -281,6 +287,7 @@ var floors = map[string]map[string]int{
 	"C06": {
 		"timeout:worker-while-executing": 40, "timeout:worker-while-idle": 200, "timeout:operation-without-waiters": 400,
 		"timeout:size-class-queue-without-workers": 20, "retry-limit:task-failed-after-too-many-attempts": 3,
+		"timeout:size-class-queue-removed-with-queued-tasks": 8, "kill:operation-gone-during-authorization": 20,
 		"leak-check:executed": 100, "synchronize:idle-timeout": 100, "synchronize:cancelled-while-blocked": 80,
 		"terminate:waits-for-executing-task": 12, "last-operation-abandoned:task-cancelled": 100, "stress-round": 6,
 	},
